@@ -241,8 +241,11 @@ CLAIMED["C08"] = {
             "leaves the state unchanged) and the length check for every "
             "header and expected length (Error code 3). Thorough tier adds the "
             "byte-exact Serial Notify written by Connection::notify for "
-            "every source state and connection version, and the byte-exact "
-            "Error PDU written by Connection::error.",
+            "every source state and connection version, the byte-exact "
+            "Error PDU written by Connection::error, and the witness query "
+            "of known finding C08-notify-mid-header (one recv call, header "
+            "arriving as 3 + 5 octets, notification in between: octets are "
+            "taken off the socket and dropped; 19 min / 32 GB).",
     "ref": "§3 C08",
     "note": "Hooks: rtr::server::verif (Conn wrapper of the private "
             "Connection, VQuery mirror of Query, notify future driven by a "
@@ -253,10 +256,11 @@ CLAIMED["C08"] = {
             "without the full oracle costs 18 GB / 4 min (state in nested "
             "coroutines), with the oracle, a second call or one Pending it "
             "runs out of 40-45 GB; likewise the responses of reset / serial "
-            "(harnesses kept '@tier off'); the cancellation defect the "
-            "property text mentions (select() dropping a half-read header) "
-            "is therefore not shown by any query and not listed as a "
-            "finding.",
+            "(harnesses kept '@tier off'). The cancellation defect the "
+            "property text mentions is shown by the single witness query "
+            "above and a native demonstration, recorded in "
+            "known_findings.json and not repaired (DESIGN section 3 C08); "
+            "all other schedules are undecided.",
 }
 
 CLAIMED["C04"] = {
